@@ -262,6 +262,17 @@ def rule_r_lazy_drop(ctx):
             n += 1
             nx = [c for c in ctx.calls(b) if c.method == "next" and c.local_callee() is not None and c.arg_path(0) is not None and c.arg_path(0).root == 1]
             why = []
+            db = b
+            if not nx:
+                # the draining loop shared in a generic helper: `fn drop(&mut self) { drop_remaining(self) }` with
+                # `fn drop_remaining<I: Iterator>(iter: &mut I) { while let Some(x) = iter.next() { .. } }` — decided on the helper
+                cs = [c for c in ctx.calls(b) if not b.is_cleanup(c.loc.bb)]
+                if len(cs) == 1 and cs[0].local_callee() is not None and cs[0].local_callee().kind != "Closure" and len(cs[0].args) == 1 \
+                        and cs[0].arg_path(0) is not None and cs[0].arg_path(0).strip_refs().root == 1 and not cs[0].arg_path(0).fields():
+                    db = cs[0].local_callee()
+                    nx = [c for c in ctx.calls(db) if c.method == "next" and not db.is_cleanup(c.loc.bb) and c.arg_path(0) is not None
+                          and c.arg_path(0).strip_refs().root == 1 and not c.arg_path(0).fields()]
+            b_, b = b, db
             if len(nx) != 1:
                 why.append("drop does not poll self.next() in a single loop")
             else:
@@ -279,7 +290,8 @@ def rule_r_lazy_drop(ctx):
                         for s_ in b.succs(x):
                             if s_ not in bl and s_ not in none_targets and b.term(s_)["k"] != "unreachable":
                                 why.append("the draining loop can be left (bb%d -> bb%d) before next() returned None" % (x, s_))
-            R.inst(fn=b.path, kind="drop", verdict="ok" if not why else "VIOLATION")
+            b = b_
+            R.inst(fn=b.path, kind="drop", loop_in=db.path, verdict="ok" if not why else "VIOLATION")
             if why:
                 R.viol("%s:drop" % b.path, b.where(Loc(0, 0)), "; ".join(why))
     if n < 4:
